@@ -281,7 +281,8 @@ def check(ctx):
     if ok:
         ok, path = pcfg.must_pass(ctxv, lambda m: m in wrapn, exits=("exit",))
     ctx.ob("R3", f"{EX}:Execer.parse", "every context-transformed tree passes wrap_subproc_raise_checks before it is returned", ok, key="parse|wrapper-skipped")
-    rets = [n for n in pcfg.nodes if n.kind == "stmt" and isinstance(n.ast, ast.Return) and n.ast.value is not None and unparse(n.ast.value) == "tree"]
+    treevars = {t.id for n in ctxv if isinstance(n.ast, ast.Assign) for t in n.ast.targets if isinstance(t, ast.Name)}
+    rets = [n for n in pcfg.nodes if n.kind == "stmt" and isinstance(n.ast, ast.Return) and isinstance(n.ast.value, ast.Name) and n.ast.value.id in treevars]
     ok = bool(rets) and all(pcfg.dominated(r, lambda m: m in wrapn) for r in rets)
     ctx.ob("R3", f"{EX}:Execer.parse", "`return tree` is dominated by the wrapper pass", ok, key="parse|return-undominated")
 
@@ -392,16 +393,18 @@ def check(ctx):
     mx = mn.func("main_xonsh")
     src = unparse(mx)
     # in the finally: a non-SystemExit exception sets exit_code = 1
+    retvars = {n.value.id for n in walk_local(mx) if isinstance(n, ast.Return) and isinstance(n.value, ast.Name)}
     fin_ok = False
     for n in ast.walk(mx):
         if isinstance(n, ast.Try) and n.finalbody:
             for m in ast.walk(ast.Module(body=n.finalbody, type_ignores=[])):
                 if isinstance(m, ast.If) and "SystemExit" in unparse(m.test):
                     for s in m.orelse:
-                        if isinstance(s, ast.Assign) and unparse(s.targets[0]) == "exit_code" and isinstance(const_value(s.value), int) and const_value(s.value) != 0:
+                        if isinstance(s, ast.Assign) and unparse(s.targets[0]) in retvars and isinstance(const_value(s.value), int) and const_value(s.value) != 0:
                             fin_ok = True
     ctx.ob("R5", f"{MN}:main_xonsh", "an exception other than SystemExit recorded in exc_info sets a non-zero exit code", fin_ok, key="main|exception-exit-code")
-    ok = any(isinstance(n, ast.Return) and unparse(n.value) == "exit_code" for n in walk_local(mx))
+    fired = {unparse(k.value) for c in calls_in(mx) if (call_name(c) or "").endswith("on_exit.fire") for k in c.keywords if k.arg == "exit_code"}
+    ok = len(retvars) == 1 and fired <= retvars and bool(fired)
     ctx.ob("R5", f"{MN}:main_xonsh", "main_xonsh returns the computed exit code", ok, key="main|returns-exit-code")
     del src
 
